@@ -197,3 +197,7 @@ PROPS["C09"] = {
     "mir": [ob("partition_agree", "ob_bptree", "partition_agree", kwargs={"N": 6}, thorough_kwargs={"N": 8})],
     "assumptions": COMMON_K + COMMON_M + ["outside: leaf packing (serialize_bptree), in-leaf search and left/right expansion (read_headers/go_right), end-to-end build-then-query, SHA-256"],
 }
+
+PROPS["C13"]["mir"].append(ob("deferred_deadline_inv", "ob_storage", "deferred_deadline_inv"))
+PROPS["C04"]["mir"]  # restore_loads_index now also carries the C14 claim (no suspension between pop and install)
+PROPS["C14"]["mir"].append(ob("restore_no_suspension", "ob_storage", "restore_loads_index"))
